@@ -967,6 +967,39 @@ def composite_direct_checks(rng, grids, specs, n, report, counts):
             report(f"C09:CompositeTransform.{hist[-1]['op']}:direct-access-raises", f"{type(e).__name__}: {str(e)[:120]}", list(hist))
 
 
+def expshare(p):
+    """who shares which ExpFlow module: histories of construction / copy / grid_ / grid() / inverse on real
+    StationaryVelocityFieldTransform objects; view per object: (flag of its grid, flag of its module, module identity)"""
+    out = []
+    for h in p["histories"]:
+        objs = []
+        try:
+            for op in h:
+                k = op[0]
+                if k == "new":
+                    g = Grid(size=(5, 4), align_corners=bool(op[1]))
+                    objs.append(S.StationaryVelocityFieldTransform(g, params=torch.zeros((1, 2, 4, 5))))
+                elif k == "copy":
+                    objs.append(copy.copy(objs[op[1]]))
+                elif k == "grid_":
+                    objs[op[1]].grid_(objs[op[1]].grid().align_corners(bool(op[2])))
+                elif k == "grid":
+                    objs.append(objs[op[1]].grid(objs[op[1]].grid().align_corners(bool(op[2]))))
+                elif k == "inverse":
+                    objs.append(objs[op[1]].inverse(link=bool(op[2]), update_buffers=bool(op[3])))
+            ids = []
+            view = []
+            for t in objs:
+                e = t.exp
+                if not any(e is x for x in ids):
+                    ids.append(e)
+                view.append([bool(t.grid().align_corners()), bool(e.align_corners), [i for i, x in enumerate(ids) if x is e][0]])
+            out.append({"view": view})
+        except Exception as e:  # noqa
+            out.append({"error": type(e).__name__, "msg": str(e)[:160]})
+    return out
+
+
 def main():
     p = json.loads(sys.stdin.read())
     fn = p["fn"]
@@ -976,6 +1009,8 @@ def main():
         emit_json(histories(p))
     elif fn == "generate":
         emit_json(generate(p))
+    elif fn == "expshare":
+        emit_json(expshare(p))
     elif fn == "oracle":
         emit_json(oracle(p))
     else:
